@@ -2,7 +2,7 @@
 From Coq Require Import List ZArith Bool.
 From LJT Require Import model.Huff gen.GenParams model.CParams proofs.CParamsHoare proofs.CParamsTj
   proofs.CParamsScript proofs.CParamsChain proofs.CParamsSetup proofs.CParamsBlock proofs.CParamsMaster
-  proofs.CParamsPasses proofs.CParamsSimd proofs.CParamsExamples lib.Sweep model.CProgScript proofs.CProgScriptProofs model.CRestart proofs.CRestartProofs.
+  proofs.CParamsPasses proofs.CParamsSimd proofs.CParamsExamples lib.Sweep model.CProgScript proofs.CProgScriptProofs model.CRestart proofs.CRestartProofs model.CMarker proofs.CMarkerProofs.
 Import ListNotations.
 Local Open Scope Z_scope.
 
@@ -162,20 +162,59 @@ Theorem C17_raw_rows_complete : forall height lines num_lines, 1 <= height -> 0 
 Proof. exact raw_rows_complete_lemma. Qed.
 Print Assumptions C17_raw_rows_complete.
 
-(* (6) stream completeness, as far as the model carries it: the pass loop of the master terminates for every
-   scan count / optimisation setting / set of DC refinement scans, writes SOI first, every scan's data exactly
-   once in script order directly after its scan header, and EOI last.  The byte-level statement is kept
-   visible; it is checked on the implementation by the oracle (ends with FFD9, own decoder accepts). *)
-Definition stream_complete_full : Prop :=
-  forall (compress : cfg -> option (list Z)) (c : cfg) (bytes : list Z),
-    compress c = Some bytes ->
-    exists body, bytes = [255; 216] ++ body ++ [255; 217].
-Theorem C17_stream_complete_partial : forall n optimize dcr, 1 <= n ->
+(* (6) stream completeness.  The marker writer (jcmarker.c) is modelled byte for byte; a datastream is the
+   concatenation of what it writes along the pass events of the master, the entropy-coded data of each scan
+   being arbitrary bytes and the statistics passes installing arbitrary new Huffman tables.
+   (6a) pass loop: terminates for every scan count / optimisation / DC-refinement set; SOI first, every scan's
+        data once, in order, directly after its scan header, EOI last *)
+Theorem C17_stream_complete_passes : forall n optimize dcr, 1 <= n ->
   exists ev, run_master n optimize dcr = Some ev /\
              hd EvEOI ev = EvSOI /\ last ev EvSOI = EvEOI /\
              scan_data ev = zrange 0 (Z.to_nat n) /\ headed None ev.
 Proof. exact stream_complete_partial_lemma. Qed.
-Print Assumptions C17_stream_complete_partial.
+Print Assumptions C17_stream_complete_passes.
+
+(* (6b) ... in particular for EVERY script validate_script accepts (jpeg_finish_compress's multi-pass loop) *)
+Theorem C17_finish_compress_terminates : forall nc prec scans mode optimize dcr,
+  snd (validate_script nc prec scans) = inr mode ->
+  exists ev, run_master (Z.of_nat (length scans)) optimize dcr = Some ev /\
+             last ev EvSOI = EvEOI /\ scan_data ev = zrange 0 (length scans) /\ headed None ev.
+Proof. exact finish_compress_terminates_lemma. Qed.
+Print Assumptions C17_finish_compress_terminates.
+
+(* (6c) bytes: whatever the image, tables, scan parameters, data and regenerated tables, a completed
+        compression writes FFD8 ... FFD9 *)
+Theorem C17_stream_complete_full : forall img scans data regen n optimize dcr st, 1 <= n ->
+  exists ev, run_master n optimize dcr = Some ev /\
+    forall tr, assemble img scans data regen ev st = inr tr ->
+      exists body, bytes_of tr = [255; 216] ++ body ++ [255; 217].
+Proof. exact stream_complete_full_lemma. Qed.
+Print Assumptions C17_stream_complete_full.
+
+(* (6d) tables before use: for every event sequence, if the reader's knowledge agrees with the sent_table
+        flags at the start (inv; e.g. write_all_tables = TRUE and a reader that knows nothing), then after the
+        frame header every quantisation table a component refers to, and after every scan header every Huffman
+        table the scan needs and the restart interval in force, are known to the reader with exactly the
+        encoder's content (audit = true); statistics passes may replace any table provided they clear its
+        sent_table flag (regen_ok), which the modelled finish_pass_gather does *)
+Theorem C17_tables_before_use : forall img scans data regen ev st d,
+  regen_ok regen -> inv st d -> audit img scans data regen ev st d = true.
+Proof. exact tables_before_use_lemma. Qed.
+Print Assumptions C17_tables_before_use.
+Theorem C17_tables_initial : forall st, all_unsent st -> inv st dview0.
+Proof. exact inv_initial. Qed.
+Print Assumptions C17_tables_initial.
+Theorem C17_regen_std_ok : forall img scans newc, regen_ok (regen_std img scans newc).
+Proof. exact regen_std_ok. Qed.
+Print Assumptions C17_regen_std_ok.
+
+(* (6e) a table marker is written only for a table whose sent_table flag is clear, and sets it *)
+Theorem C17_dht_only_when_unsent : forall st index is_ac m st' slot, 0 <= slot ->
+  emit_dht st index is_ac = inr (m, st') ->
+  count_defs slot m + (if is_sent st' slot then 0 else 1) <= (if is_sent st slot then 0 else 1) /\
+  (is_sent st slot = true -> is_sent st' slot = true).
+Proof. exact emit_dht_count. Qed.
+Print Assumptions C17_dht_only_when_unsent.
 
 (* ---- non-vacuity ---- *)
 Example C17_ex_std_progression_accepted :
